@@ -101,6 +101,17 @@ func (w *World) runPath(g *Grammar, entry, step, expr *ssa.Function, stream []to
 		if callee == nil {
 			return false, AVal{}
 		}
+		if callee == g.NewAxis && len(args) >= 4 {
+			ax, _ := args[0].Str()
+			tt, okT := args[1].Int()
+			ln, _ := args[2].Str()
+			px, _ := args[3].Str()
+			if !okT {
+				tt = -1
+			}
+			st.Trace = append(st.Trace, AEvent{Kind: "axis", Name: fmt.Sprintf("%s|%d|%s|%s", ax, tt, ln, px)})
+			return false, AVal{}
+		}
 		switch {
 		case callee == g.NextItem:
 			k, pos := cur(st)
@@ -136,6 +147,8 @@ func (w *World) runPath(g *Grammar, entry, step, expr *ssa.Function, stream []to
 		po := pathOutcome{Panicked: o.Panicked, Cut: o.Cut, Ret: o.Ret}
 		for _, ev := range o.St.Trace {
 			switch ev.Kind {
+			case "axis":
+				po.Events = append(po.Events, pathEvent{Kind: "axis:" + ev.Name})
 			case "tok", "step", "expr":
 				var k int64
 				var pos int
@@ -316,4 +329,101 @@ func (g *Grammar) tokTextOf(k int64) string {
 		}
 	}
 	return g.tokName(k)
+}
+
+// dslashExpansion: in each grammatical position of `//` (leading, between two
+// steps, after a primary expression) every completed path that consumed the
+// `//` token builds descendant-or-self::node() before it parses the next step.
+func (w *World) dslashExpansion(r *Report, g *Grammar, all int64) {
+	entry, expr := w.pathEntry(g)
+	step := w.stepParser(g)
+	t := w.stepTokens(g)
+	dslash := g.tokOfText("//")
+	eof, okE := g.eofTok()
+	if entry == nil || step == nil || !t.ok || dslash < 0 || !okE {
+		r.bad("ANCHOR", "G-ABBREV:sites", "", "path-expression parser or the `//` token not found")
+		return
+	}
+	pos := w.pos(entry.Pos())
+	want := fmt.Sprintf("axis:descendant-or-self|%d||", all)
+	name := tokSpec{Tok: t.name, Name: "x"}
+	// a token the path parser takes as a complete primary expression
+	var prim *tokSpec
+	var toks []int64
+	for k := range g.TokNames {
+		toks = append(toks, k)
+	}
+	sort.Slice(toks, func(i, j int) bool { return toks[i] < toks[j] })
+	for _, k := range toks {
+		if k == eof || k == dslash || k == g.tokOfText("/") || prim != nil {
+			continue
+		}
+		for _, o := range w.runPath(g, entry, step, expr, []tokSpec{{Tok: k, Keep: true}, {Tok: eof, Keep: true}}) {
+			if o.Cut || o.Panicked || len(o.Events) == 0 {
+				continue
+			}
+			onlyConsume := true
+			for _, e := range o.Events {
+				if e.Kind != "consume" {
+					onlyConsume = false
+				}
+			}
+			if onlyConsume {
+				ts := tokSpec{Tok: k, Keep: true}
+				prim = &ts
+			}
+		}
+	}
+	positions := map[string][]tokSpec{
+		"leading":       {{Tok: dslash, Keep: true}, name, {Tok: eof, Keep: true}},
+		"between steps": {name, {Tok: dslash, Keep: true}, name, {Tok: eof, Keep: true}},
+	}
+	if prim != nil {
+		positions["after a primary expression"] = []tokSpec{*prim, {Tok: dslash, Keep: true}, name, {Tok: eof, Keep: true}}
+	}
+	var names []string
+	for n := range positions {
+		names = append(names, n)
+	}
+	sort.Strings(names)
+	for _, pn := range names {
+		key := "sites://:" + pn
+		outs := w.runPath(g, entry, step, expr, positions[pn])
+		n, bad, cut := 0, "", false
+		for _, o := range outs {
+			if o.Cut {
+				cut = true
+				continue
+			}
+			if o.Panicked {
+				continue
+			}
+			for i, e := range o.Events {
+				if e.Kind != "consume" || e.Tok != dslash {
+					continue
+				}
+				n++
+				found := false
+				for _, e2 := range o.Events[i+1:] {
+					if e2.Kind == "step" {
+						break
+					}
+					if e2.Kind == want {
+						found = true
+					}
+				}
+				if !found {
+					bad = fmt.Sprintf("`//` %s is consumed without descendant-or-self::node() being built before the next step: it is read as a plain `/`", pn)
+				}
+			}
+		}
+		switch {
+		case bad != "":
+			r.bad("G-ABBREV", key, pos, bad)
+		case cut || n == 0:
+			r.undec("G-ABBREV", key, pos, "the path parser could not be followed for `//` "+pn)
+		default:
+			r.ok("G-ABBREV", key, pos, "`//` "+pn+" => descendant-or-self::node() before the next step")
+		}
+	}
 }
